@@ -18,6 +18,8 @@ EVIDENCE_DIR = os.path.join(VERIF, "evidence")
 KNOWN = os.path.join(VERIF, "known_findings.json")
 
 _CTX = None
+_HANGS = None  # shared counter of hang observations in this run (multiprocessing.Value)
+MAX_RUN_HANGS = 12
 
 
 class Ctx:
@@ -114,8 +116,9 @@ def judge_case(mod, case, obs):
     return v
 
 
-def _worker_init(bins, run_dir):
-    global _CTX
+def _worker_init(bins, run_dir, hangs=None):
+    global _CTX, _HANGS
+    _HANGS = hangs
     _CTX = Ctx(bins, run_dir)
     import atexit
     atexit.register(_CTX.close)
@@ -138,12 +141,26 @@ def _run_shard(args):
         mod = importlib.import_module(modname)
         rng = core.rng_for(seed, mod.ID, "shard:" + str(shard.get("name")))
         chunk = []
+        if _HANGS is not None and _HANGS.value >= MAX_RUN_HANGS:
+            # the tree hangs on many inputs and enough witnesses were recorded: the verdict is already "violated"
+            res["buckets"]["shard-skipped-after-%d-hangs-in-this-run" % MAX_RUN_HANGS] += 1
+            res["wall"] = 0.0
+            return res
+
+        hangs = [0]
 
         def flush():
             if not chunk:
                 return
             obs_all = execute_cases(_CTX, chunk)
             for case, obs in zip(chunk, obs_all):
+                nh = sum(1 for o in obs if "hang" in o or "memory" in o or o.get("signal") == 24)
+                hangs[0] += nh
+                if nh and _HANGS is not None:
+                    with _HANGS.get_lock():
+                        _HANGS.value += nh
+                if any("skipped" in o for o in obs):
+                    continue
                 v = judge_case(mod, case, obs)
                 res["evaluations"] += 1
                 for b in v.buckets:
@@ -160,8 +177,13 @@ def _run_shard(args):
 
         for case in mod.gen(shard, rng, tier):
             chunk.append(case)
-            if len(chunk) >= 200:
+            # cases that may block (process runs) are flushed in small groups so that a tree that hangs on many inputs is
+            # reported after a few witnesses instead of after hours
+            if len(chunk) >= (200 if all("lib" in s for s in case["steps"]) else 8):
                 flush()
+            if hangs[0] >= 3:
+                res["buckets"]["shard-stopped-after-3-hangs"] += 1
+                break
         flush()
         if shard.get("exhaustive"):
             res["exhaustive"].append(shard["exhaustive"])
@@ -232,7 +254,9 @@ def run(prop, tier="quick", seed=0, replay=None, jobs=None):
         shards = mod.shards(tier, seed)
         jobs = jobs or int(os.environ.get("VERIF_JOBS", "16"))
         results = []
-        with multiprocessing.get_context("fork").Pool(min(jobs, max(1, len(shards))), _worker_init, (bins, run_dir)) as pool:
+        mp = multiprocessing.get_context("fork")
+        hang_counter = mp.Value("i", 0)
+        with mp.Pool(min(jobs, max(1, len(shards))), _worker_init, (bins, run_dir, hang_counter)) as pool:
             for r in pool.imap_unordered(_run_shard, [(modname, s, tier, seed) for s in shards]):
                 results.append(r)
 
